@@ -49,7 +49,9 @@ def node_from_show(d):
 
 # ------------------------------------------------------------------ the rig
 class Rig(object):
-    def __init__(self, flags, axolotl, profile=None, tap_forwards_messages=False):
+    UNSET = object()          # ping_interval=UNSET: the stack property is left out (the layer's default applies)
+
+    def __init__(self, flags, axolotl, profile=None, tap_forwards_messages=False, ping_interval=0):
         YowLayer, YowParallelLayer, YowLayerEvent, YowStack, YowStackBuilder = _imports()
         from yowsup.layers.protocol_iq import YowIqProtocolLayer
         from yowsup.layers.network import YowNetworkLayer
@@ -70,6 +72,9 @@ class Rig(object):
         class Top(YowLayer):
             def receive(self, data):
                 rig.ups.append(data)
+                hook, rig.on_top_receive = rig.on_top_receive, None
+                if hook is not None:
+                    hook(self, data)          # an application that reacts (e.g. sends) from inside its handler
 
             def onEvent(self, ev):
                 return True
@@ -84,6 +89,7 @@ class Rig(object):
                     self.toLower(data)
 
         self.on_send = None
+        self.on_top_receive = None
         self.flags = dict(zip(FLAGS, flags))
         self.axolotl = axolotl
         proto = YowParallelLayer(YowStackBuilder.getProtocolLayers(**self.flags))
@@ -92,7 +98,7 @@ class Rig(object):
             from yowsup.layers.axolotl import AxolotlSendLayer, AxolotlControlLayer, AxolotlReceivelayer
             layers += (AxolotlControlLayer, YowParallelLayer((AxolotlSendLayer, AxolotlReceivelayer)), Tap)
         layers += (proto, Top)
-        props = {YowIqProtocolLayer.PROP_PING_INTERVAL: 0}
+        props = {} if ping_interval is Rig.UNSET else {YowIqProtocolLayer.PROP_PING_INTERVAL: ping_interval}
         if profile is not None:
             props["profile"] = profile
         self.stack = YowStack(layers, reversed=False, props=props)
@@ -151,6 +157,42 @@ class Rig(object):
         self.on_send = None
         out = self.mids if self.axolotl else self.downs
         return list(self.ups), list(out), exc, box["delivered"]
+
+    def recv_retrying(self, node, entity):
+        """like recv(), but the top layer, on the first entity it is handed, sends `entity` from inside its own
+        receive(); returns (ups, stanzas leaving the protocol group, stanzas at the bottom, exception, retried?)"""
+        box = {"retried": False, "exc": None}
+
+        def hook(top, data):
+            box["retried"] = True
+            try:
+                top.toLower(entity)
+            except Exception as e:  # noqa
+                box["exc"] = e
+        self.on_top_receive = hook
+        ups, downs, exc = self.recv(node)
+        self.on_top_receive = None
+        out = self.mids if self.axolotl else self.downs
+        return ups, list(out), downs, exc or box["exc"], box["retried"]
+
+    # lifecycle events, delivered the way the real stack delivers them: CONNECTED / DISCONNECTED are emitted upward
+    # by the network layer (below the protocol group), AUTHED / DISCONNECT are broadcast by a layer of the protocol
+    # group (the authentication layer) or from above it
+    def event(self, name, **kw):
+        from yowsup.layers import YowLayerEvent
+        from yowsup.layers.network import YowNetworkLayer
+        self.clear()
+        exc = None
+        ev = YowLayerEvent(name, **kw)
+        try:
+            with contextlib.redirect_stdout(io.StringIO()):
+                if name in (YowNetworkLayer.EVENT_STATE_CONNECTED, YowNetworkLayer.EVENT_STATE_DISCONNECTED):
+                    self.bottom.emitEvent(ev)
+                else:
+                    self.proto.subBroadcastEvent(ev)
+        except Exception as e:  # noqa
+            exc = e
+        return list(self.ups), list(self.downs), exc
 
     def enqueue_sent(self, node):
         """state set-up for retry receipts: the send layer's own bookkeeping method"""
